@@ -112,7 +112,18 @@ func (m *recoverer) serviceStart(ctx context.Context) {
 			// restart the service
 			if err != nil {
 				if errors.Is(err, errServiceStopped) {
-					<-time.After(m.coolDown)
+					// the cool-down ends early when the recoverer is closed and
+					// a closed recoverer does not restart the service
+					select {
+					case <-time.After(m.coolDown):
+					case <-m.chClose:
+					}
+
+					if m.closed.Load() {
+						m.running.Store(false)
+						return
+					}
+
 					go m.recoverableStart(ctx)
 				}
 			}
